@@ -298,6 +298,7 @@ func (x Expr) Has(data any) bool {
 								switch rt.Kind() {
 								case reflect.Ptr, reflect.Slice, reflect.Struct, reflect.Array, reflect.Map:
 									stack = append(stack, v)
+									stack = append(stack, fi|descentChildFlag)
 								}
 							}
 						}
@@ -325,6 +326,7 @@ func (x Expr) Has(data any) bool {
 								switch rt.Kind() {
 								case reflect.Ptr, reflect.Slice, reflect.Struct, reflect.Array, reflect.Map:
 									stack = append(stack, v)
+									stack = append(stack, fi|descentChildFlag)
 								}
 							}
 						}
@@ -353,6 +355,7 @@ func (x Expr) Has(data any) bool {
 								switch rt.Kind() {
 								case reflect.Ptr, reflect.Slice, reflect.Struct, reflect.Array, reflect.Map:
 									stack = append(stack, v)
+									stack = append(stack, fi|descentChildFlag)
 								}
 							}
 						}
@@ -381,6 +384,7 @@ func (x Expr) Has(data any) bool {
 								switch rt.Kind() {
 								case reflect.Ptr, reflect.Slice, reflect.Struct, reflect.Array, reflect.Map:
 									stack = append(stack, v)
+									stack = append(stack, fi|descentChildFlag)
 								}
 							}
 						}
@@ -416,6 +420,32 @@ func (x Expr) Has(data any) bool {
 						case map[string]any, []any, gen.Object, gen.Array, Keyed, Indexed:
 							stack = append(stack, v)
 							stack = append(stack, fi|descentChildFlag)
+						}
+					}
+				default:
+					got := reflectGetWild(tv)
+					stack = append(stack, prev, di|descentFlag)
+					if int(fi) == len(x)-1 { // last one
+						if 0 < len(got) {
+							return true
+						}
+					}
+					for _, v = range got {
+						switch v.(type) {
+						case nil, bool, string, float64, float32,
+							int, uint, int8, int16, int32, int64, uint8, uint16, uint32, uint64,
+							gen.Bool, gen.Int, gen.Float, gen.String:
+						case map[string]any, []any, gen.Object, gen.Array, Keyed, Indexed:
+							stack = append(stack, v)
+							stack = append(stack, fi|descentChildFlag)
+						default:
+							if rt := reflect.TypeOf(v); rt != nil {
+								switch rt.Kind() {
+								case reflect.Ptr, reflect.Slice, reflect.Struct, reflect.Array, reflect.Map:
+									stack = append(stack, v)
+									stack = append(stack, fi|descentChildFlag)
+								}
+							}
 						}
 					}
 				}
